@@ -282,6 +282,141 @@ fn run_case(tape: &Tape) -> (Out, Result<(), Failure>) {
     (out, r)
 }
 
+/// Real-parallelism stage: `threads` threads (more than cores, so the OS preempts inside redb)
+/// each rewrite their own table of ONE write transaction `ops` times while an ephemeral savepoint
+/// is alive (page tracking on). Pages allocated by the transaction are freed and re-allocated
+/// across threads all the time. Fixed work, seeded values; the verdict comes from return values,
+/// per-table models, restore and the page accounting -- never from timing.
+pub fn stress(seed: u64, threads: usize, ops: usize, commit: bool) -> Result<(), Failure> {
+    use redb::{ReadableDatabase, ReadableTable, TableDefinition};
+    let fail = |sig: &str, m: String| Failure::new(sig, format!("shared-transaction stress (seed {seed}, {threads} threads x {ops} overwrites, {}): {m}", if commit { "commit" } else { "abort" }));
+    let cfg = crate::genr::DbCfg { page_size: 512, region_size: 65536, cache_size: 1 << 22 };
+    let db = cfg.builder().create_with_backend(crate::backend::RecBackend::new(false)).map_err(|e| Failure::new("create", format!("{e:?}")))?;
+    let names: Vec<String> = (0..threads).map(|i| format!("s{i}")).collect();
+    let val = |t: usize, j: usize, k: u64| -> Vec<u8> { crate::genr::fill(seed ^ ((t as u64) << 32) ^ ((j as u64) << 8) ^ k, 40 + ((seed as usize % 9 + t * 7 + (j % 1_000_003) * 13 + k as usize * 5) % 9) * 70) };
+    const KEYS: u64 = 24;
+    {
+        let w = db.begin_write().map_err(|e| fail("harness", format!("{e:?}")))?;
+        for (t, n) in names.iter().enumerate() {
+            let def: TableDefinition<u64, &[u8]> = TableDefinition::new(n);
+            let mut tb = w.open_table(def).map_err(|e| fail("harness", format!("{e:?}")))?;
+            for k in 0..KEYS {
+                tb.insert(k, val(t, usize::MAX, k).as_slice()).map_err(|e| fail("harness", format!("{e:?}")))?;
+            }
+        }
+        w.commit().map_err(|e| fail("harness", format!("{e:?}")))?;
+    }
+    account(&db).map_err(|e| fail("page-accounting", format!("before the shared transaction: {e}")))?;
+    let wt = db.begin_write().map_err(|e| fail("harness", format!("{e:?}")))?;
+    let sp = wt.ephemeral_savepoint().map_err(|e| fail("harness", format!("ephemeral_savepoint: {e:?}")))?;
+    let errors: Mutex<Vec<Failure>> = Mutex::new(vec![]);
+    let finals: Vec<Mutex<Vec<Vec<u8>>>> = (0..threads).map(|_| Mutex::new(vec![])).collect();
+    let start = std::sync::Barrier::new(threads);
+    std::thread::scope(|s| {
+        for t in 0..threads {
+            let (wt, names, errors, finals, start, val, fail) = (&wt, &names, &errors, &finals, &start, &val, &fail);
+            s.spawn(move || {
+                let r = catch(|| -> Result<(), Failure> {
+                    let def: TableDefinition<u64, &[u8]> = TableDefinition::new(&names[t]);
+                    start.wait();
+                    let mut tb = wt.open_table(def).map_err(|e| fail("shared-open", format!("thread {t}: {e:?}")))?;
+                    let mut last: Vec<Vec<u8>> = (0..KEYS).map(|k| val(t, usize::MAX, k)).collect();
+                    for j in 0..ops {
+                        let k = ((j * 7 + t) as u64) % KEYS;
+                        let v = val(t, j, k);
+                        let old = tb.insert(k, v.as_slice()).map_err(|e| fail("shared-insert", format!("thread {t}: {e:?}")))?;
+                        match old {
+                            Some(g) if g.value() == last[k as usize].as_slice() => {}
+                            Some(_) => return Err(fail("shared-insert-old-value", format!("thread {t}, overwrite {j}: insert returned a previous value that this thread never wrote last for key {k}"))),
+                            None => return Err(fail("shared-insert-old-value", format!("thread {t}, overwrite {j}: insert found no previous value for key {k}"))),
+                        }
+                        last[k as usize] = v;
+                    }
+                    for k in 0..KEYS {
+                        let g = tb.get(k).map_err(|e| fail("shared-get", format!("thread {t}: {e:?}")))?;
+                        if g.map(|g| g.value().to_vec()) != Some(last[k as usize].clone()) {
+                            return Err(fail("shared-content", format!("thread {t}: key {k} does not hold the last value this thread wrote")));
+                        }
+                    }
+                    *finals[t].lock().unwrap() = last;
+                    Ok(())
+                });
+                match r {
+                    Ok(Ok(())) => {}
+                    Ok(Err(f)) => errors.lock().unwrap().push(f),
+                    Err(p) => errors.lock().unwrap().push(Failure::new(format!("panic:{}", normalize_sig(&p)), format!("shared-transaction stress (seed {seed}): thread {t} panicked: {p}"))),
+                }
+            });
+        }
+    });
+    {
+        let mut e = errors.into_inner().unwrap();
+        // a poisoned mutex in the other threads is a consequence; report the root panic first
+        e.sort_by_key(|f| f.msg.contains("PoisonError"));
+        if let Some(f) = e.into_iter().next() {
+            // the handles may panic again while being dropped (poisoned locks): keep the root cause
+            let _ = catch(move || {
+                drop(sp);
+                drop(wt);
+            });
+            return Err(f);
+        }
+    }
+    let end = catch(|| if commit { wt.commit().map_err(|e| format!("{e:?}")) } else { wt.abort().map_err(|e| format!("{e:?}")) });
+    match end {
+        Ok(Ok(())) => {}
+        Ok(Err(e)) => return Err(fail("shared-end", format!("ending the shared transaction failed: {e}"))),
+        Err(p) => return Err(Failure::new(format!("panic:{}", normalize_sig(&p)), format!("shared-transaction stress (seed {seed}): panic ending the transaction: {p}"))),
+    }
+    let verify = |pre: bool, what: &str| -> Result<(), Failure> {
+        let rt = db.begin_read().map_err(|e| fail("harness", format!("{e:?}")))?;
+        for (t, n) in names.iter().enumerate() {
+            let def: TableDefinition<u64, &[u8]> = TableDefinition::new(n);
+            let tb = rt.open_table(def).map_err(|e| fail("shared-content", format!("{what}: table {n}: {e:?}")))?;
+            let fin = finals[t].lock().unwrap();
+            let mut n_rows = 0;
+            for e in tb.iter().map_err(|e| fail("shared-content", format!("{e:?}")))? {
+                let (k, v) = e.map_err(|e| fail("shared-content", format!("{e:?}")))?;
+                let k = k.value();
+                n_rows += 1;
+                let want = if pre { val(t, usize::MAX, k) } else { fin.get(k as usize).cloned().unwrap_or_default() };
+                if k >= KEYS || v.value() != want.as_slice() {
+                    return Err(fail("shared-content", format!("{what}: table {n} key {k} holds a value its thread did not leave there")));
+                }
+            }
+            if n_rows != KEYS {
+                return Err(fail("shared-content", format!("{what}: table {n} has {n_rows} rows, expected {KEYS}")));
+            }
+        }
+        Ok(())
+    };
+    verify(!commit, "after the shared transaction")?;
+    account(&db).map_err(|e| fail("page-accounting", format!("after the shared transaction: {e}")))?;
+    let mut rt = db.begin_write().map_err(|e| fail("harness", format!("{e:?}")))?;
+    match catch(|| rt.restore_savepoint(&sp)) {
+        Ok(Ok(())) => {}
+        Ok(Err(e)) => return Err(fail("shared-savepoint-invalid", format!("restore failed: {e:?}"))),
+        Err(p) => return Err(Failure::new(format!("panic:{}", normalize_sig(&p)), format!("shared-transaction stress (seed {seed}): panic restoring the savepoint: {p}"))),
+    }
+    rt.commit().map_err(|e| fail("shared-end", format!("{e:?}")))?;
+    drop(sp);
+    verify(true, "after restoring the savepoint")?;
+    account(&db).map_err(|e| fail("page-accounting", format!("after restoring the savepoint: {e}")))?;
+    for _ in 0..4 {
+        let t = db.begin_write().map_err(|e| fail("harness", format!("{e:?}")))?;
+        t.commit().map_err(|e| fail("harness", format!("{e:?}")))?;
+    }
+    let a = account(&db).map_err(|e| fail("page-accounting", format!("after draining: {e}")))?;
+    if a.pending_free != 0 {
+        return Err(fail("pending-free-not-drained", format!("{} pages still pending free", a.pending_free)));
+    }
+    let mut db = db;
+    match db.check_integrity() {
+        Ok(true) => Ok(()),
+        r => Err(fail("integrity-false", format!("check_integrity() returned {r:?}"))),
+    }
+}
+
 impl Check for C16 {
     fn id(&self) -> &'static str {
         "C16"
@@ -294,6 +429,28 @@ impl Check for C16 {
     }
     fn plan(&self, tier: Tier) -> Plan {
         Plan { cases: tier.pick(1_600, 60_000), max_recs: 90, max_shrink_iters: 300, workers: 8 }
+    }
+    fn extra(&self, tier: Tier, seed: u64, acc: &mut crate::driver::Acc) -> Vec<(Failure, Option<Tape>)> {
+        let rounds = tier.pick(6u64, 60u64);
+        let (threads, ops) = (48usize, 1500usize);
+        let t0 = std::time::Instant::now();
+        let mut out = vec![];
+        let mut done = 0;
+        for r in 0..rounds {
+            match catch(|| stress(seed.wrapping_mul(1000).wrapping_add(r), threads, ops, r % 3 != 2)) {
+                Ok(Ok(())) => done += 1,
+                Ok(Err(f)) => {
+                    out.push((f, None));
+                    break;
+                }
+                Err(p) => {
+                    out.push((crate::driver::panic_failure(p, "shared-transaction stress"), None));
+                    break;
+                }
+            }
+        }
+        acc.extra.insert("parallel_stress".into(), json!({"what": "48 threads on 16 cores each overwrite 24 keys of their own table of one write transaction 1500 times while an ephemeral savepoint is alive; per-thread model, restore, exact accounting, check_integrity", "rounds_completed": done, "threads": threads, "overwrites_per_thread": ops, "wall_s": t0.elapsed().as_secs_f64(), "note": "real parallelism, not a controlled schedule: what is explored depends on the machine"}));
+        out
     }
     fn run(&self, tape: &Tape, want_sample: bool) -> Result<CaseOut, Failure> {
         let (o, r) = run_case(tape);
